@@ -75,8 +75,12 @@ def run_and_judge(out, cases, want, mine, crash_is_mine=False, label=""):
                     out.known(kf)
                 else:
                     out.violation("C04.%s:%s@%s" % (r["status"], r["exc"], r["frame"]), c, "phase=%s" % r["phase"])
+            elif known_crash(c, r):
+                out.skip("crashed at a call site recorded as a known finding of C04")
             else:
-                out.skip("crashed (judged by C04)")
+                # no output at all for an input of this property's domain: the property cannot hold on it (and leaving the crash
+                # to C04 alone would let through whatever made this particular family of inputs crash)
+                out.violation("%s.%s:%s@%s" % (out.prop, r["status"], r["exc"], r["frame"]), c, "phase=%s %s" % (r["phase"], label))
             continue
         if "C05.unparseable" in v["clauses"] and not mine("C05.unparseable"):
             # the text is not even a ShExC schema: nothing this property says can be read off it, and that is a verdict here too
@@ -477,6 +481,11 @@ def check_c10(out, tier):
         else:
             cfg["mode"] = "mixed"
             cfg["items"] = shape_map_items(rnd, T, classes, wildcards=True)
+        if cfg["mode"] == "classes" and rnd.random() < .35:
+            # a literal that spells the IRI of a target class is not that class: its subject is not an instance
+            rec = M.iri(M.EX + "rec%d" % i)
+            T = T + [(rec, ip, rnd.choice([M.lit(cfg["targets"][0]), M.lit(cfg["targets"][0], M.XSD + "anyURI")])), (rec, M.EX + "p0", M.lit("r"))]
+            rnd.shuffle(T)
         cases.append(gen.case("c10g%d" % i, T, **cfg))
     run_and_judge(out, cases, ["C10", "C01"], mine)
     pinned_cases(out, "C10", ["C10", "C01"], mine)
